@@ -209,6 +209,27 @@ Section Post.
     rewrite rless_irrefl in F. discriminate.
   Qed.
 
+  Lemma sorted_set_eq l1 : forall l2, StronglySorted rlt l1 -> StronglySorted rlt l2 ->
+    (forall c, In c l1 <-> In c l2) -> l1 = l2.
+  Proof.
+    induction l1 as [|a t1 IH]; intros l2 S1 S2 E.
+    - destruct l2 as [|b t2]; [reflexivity|]. exfalso. apply (E b). left. reflexivity.
+    - destruct l2 as [|b t2]; [exfalso; apply (E a); left; reflexivity|].
+      inversion S1 as [|? ? S1' F1]; subst. inversion S2 as [|? ? S2' F2]; subst.
+      rewrite Forall_forall in F1, F2.
+      assert (Eab : a = b).
+      { destruct (proj1 (E a) (or_introl eq_refl)) as [<-|Ha]; [reflexivity|].
+        destruct (proj2 (E b) (or_introl eq_refl)) as [<-|Hb]; [reflexivity|].
+        pose proof (F2 a Ha) as X. pose proof (F1 b Hb) as Y. unfold rlt in *.
+        rewrite (rless_asym _ _ X) in Y. discriminate. }
+      subst b. f_equal. apply IH; [exact S1'|exact S2'|].
+      intros c. split; intros Hc.
+      + destruct (proj1 (E c) (or_intror Hc)) as [<-|H]; [|exact H].
+        pose proof (F1 a Hc) as X. unfold rlt in X. rewrite rless_irrefl in X. discriminate.
+      + destruct (proj2 (E c) (or_intror Hc)) as [<-|H]; [|exact H].
+        pose proof (F2 a Hc) as X. unfold rlt in X. rewrite rless_irrefl in X. discriminate.
+  Qed.
+
   (** [post_ok] *)
   Theorem post_ok_gen (o : options D) (t : target D) (x : index) (old brk : bool) (qs : Z * Z) :
     let out := find_edges_from D ops o t x old brk qs in
